@@ -380,6 +380,7 @@ Fixpoint key_eqb (a b : value) : bool :=
          | x :: xs', y :: ys' => key_eqb x y && go xs' ys'
          | _, _ => false
          end) xs ys
+  | VIface c x, VIface c' y => (c =? c') && key_eqb x y     (* interface-typed key: same dynamic type, equal values *)
   | VNil, VNil => true
   | _, _ => false
   end.
